@@ -953,7 +953,7 @@ func main() {
 		// (c) triples (sampled) of <= 3 tokens
 		nt := 260
 		if thorough {
-			nt = 12000
+			nt = 6000
 		}
 		for i := 0; i < nt; i++ {
 			add("exh-3", flatCase([]string{p3[r.Intn(len(p3))], p3[r.Intn(len(p3))], p3[r.Intn(len(p3))]}, withSample(names, 8)))
@@ -961,7 +961,7 @@ func main() {
 		// (d) random larger sets: flat and re-arranged over 1-3 mounted muxes
 		nr := 130
 		if thorough {
-			nr = 6000
+			nr = 4000
 		}
 		if o.N > 0 {
 			nr = o.N
@@ -980,7 +980,7 @@ func main() {
 			"$x.a.$x", "é", "a\x7f", "a.$x.*", "*.*", "a$b", "a.b$", "$$", "$x$y", "a*", "a>", "*.>", "$x.>"}
 		nb := 90
 		if thorough {
-			nb = 3000
+			nb = 2000
 		}
 		for i := 0; i < nb; i++ {
 			d := desc{Ops: []ropD{{K: "new", Path: r.Pick([]string{"", "p", "p.q", "$x", "a.", ">", "*", "a..b", "p?"})}, {K: "new", Path: r.Pick([]string{"", "", "q", "a"})}}}
